@@ -66,6 +66,9 @@ var dcFieldSrc = map[string]string{
 	"structDefinedMap": "Meta MetaT",
 	// an embedded same-package struct, one of whose field names the embedding struct declares itself as well (shadowing)
 	"embedShadow": "EmbT\n\tTags []string",
+	// eight helper types, each declared in a FILE OF ITS OWN (see dcModule): the order of their methods in the generated file is
+	// the same in every run, whatever order the files were parsed in
+	"manyHelpers": "H1 Hlp1\n\tH2 Hlp2\n\tH3 Hlp3\n\tH4 Hlp4\n\tH5 Hlp5\n\tH6 Hlp6\n\tH7 Hlp7\n\tH8 Hlp8",
 	// two enabled types whose names differ in case only: their order in the generated file is fixed all the same
 	"caseTwins": "Op Option\n\tOp2 option",
 }
@@ -84,6 +87,7 @@ var dcDeps = map[string]string{
 	"structTwice":      "// Series holds containers; the root type has two fields of it.\ntype Series struct {\n\tPoints []int\n\tTags   map[string]string\n}\n",
 	"structDefinedMap": "// MetaT holds scalars and a defined map.\ntype MetaT struct {\n\tName   string\n\tLabels Labels\n}\n\n// Labels is a defined map type.\ntype Labels map[string]string\n",
 	"embedShadow":      "// EmbT is embedded by the root type, which has a field Tags of its own too.\ntype EmbT struct {\n\tTags []string\n\tN    int\n}\n",
+	"manyHelpers":      "//FILE h1.go\n// Hlp1 lives in a file of its own.\ntype Hlp1 struct {\n\tL []int\n}\n//FILE h2.go\n// Hlp2 lives in a file of its own.\ntype Hlp2 struct {\n\tL []int\n}\n//FILE h3.go\n// Hlp3 lives in a file of its own.\ntype Hlp3 struct {\n\tL []int\n}\n//FILE h4.go\n// Hlp4 lives in a file of its own.\ntype Hlp4 struct {\n\tL []int\n}\n//FILE h5.go\n// Hlp5 lives in a file of its own.\ntype Hlp5 struct {\n\tL []int\n}\n//FILE h6.go\n// Hlp6 lives in a file of its own.\ntype Hlp6 struct {\n\tL []int\n}\n//FILE h7.go\n// Hlp7 lives in a file of its own.\ntype Hlp7 struct {\n\tL []int\n}\n//FILE h8.go\n// Hlp8 lives in a file of its own.\ntype Hlp8 struct {\n\tL []int\n}\n",
 	"caseTwins":        "// Option is exported.\ntype Option struct {\n\tL []int\n}\n\n// option differs from Option in case only.\ntype option struct {\n\tM map[string]int\n}\n",
 	"identClash":       "// slices is an identifier of this package.\ntype slices uint8\n\n// maps likewise.\ntype maps uint8\n",
 	"definedMapLate":   "// ZMap is a defined map; its name sorts after the root type's.\ntype ZMap map[string]int\n",
@@ -378,7 +382,13 @@ func dcModule(from, to int, parsed []dcCase, obsOf []map[string]any, srcOf []str
 	for j := from; j < to; j++ {
 		pkg := fmt.Sprintf("dc%d", j)
 		srcOf[j] = dcSource(pkg, parsed[j])
-		files[pkg+"/types.go"] = srcOf[j]
+		// "//FILE name.go" lines split a case's source into several files of the package
+		chunks := strings.Split(srcOf[j], "//FILE ")
+		files[pkg+"/types.go"] = chunks[0]
+		for _, ch := range chunks[1:] {
+			nl := strings.Index(ch, "\n")
+			files[pkg+"/"+ch[:nl]] = "package " + pkg + "\n\n" + ch[nl+1:]
+		}
 		tn := "S"
 		if parsed[j].Variant == "generic" {
 			tn = "S[int]"
